@@ -40,6 +40,7 @@ package tls
 //@   requires[prefixfits] len(prefix) < maxNextProtoSizeWithBuffer
 //@   nopanic[C14,C20]
 //@   ensures[C20 args] (len(prefix) == 0 || len(value) == 0) <==> err != nil
+//@   ensures[C20,C07,* freshresult] err == nil ==> fresh(ret)
 //@   ensures[C20 count] err == nil && reqPrefix ==> len(ret) >= 1 && (len(ret) - 1) * m < len(value) && len(ret) * m >= len(value)
 //@   ensures[C20 chunks] err == nil && reqPrefix && len(value) <= 65535 ==> forall k int :: 0 <= k && k < len(ret) ==>
 //@   |   hasPrefix(ret[k], prefix) && len(ret[k]) <= 255 &&
@@ -109,3 +110,69 @@ package tls
 //@   trusted -- body not verified yet (certificate parsing, certificate map, GetCertificate closure)
 //@   ensures[* failclosed] err != nil ==> ret == nil
 //@   ensures[* ok] err == nil ==> ret != nil && fresh(ret) && in != nil
+
+// ---------------------------------------------------------------- standard.go (C07, C02)
+//
+// The gate every handshake of this library passes through. crypto/tls calls
+// the VerifyConnection function of the configuration it was handed and aborts
+// the handshake unless it returns nil (TRUSTED: crypto/tls). x509Verifies(leaf,
+// roots, name) is the uninterpreted relation "leaf.Verify succeeds against the
+// pool roots for DNS name name" (TRUSTED: crypto/x509).
+//
+// The closure: it returns nil only if the peer presented a certificate and
+// either the configuration was built for the fetch protocol (an option of the
+// party that built it - never something the peer says), or the leaf verifies
+// against the captured pool under the captured DNS name and carries the
+// expected subject key id when one is configured.
+//@ func tls.standardTlsConfig$1
+// (crypto/tls hands over parsed, non-nil peer certificates; the captured options record is the non-nil
+// result of GetOpts - established by standardTlsConfig#ensures.closure)
+//@   requires[captured] opts != nil && (len(cs.PeerCertificates) > 0 ==> cs.PeerCertificates[0] != nil)
+//@   nopanic[C07,C14]
+//@   ensures[C07,C02 gate] err == nil ==> len(cs.PeerCertificates) > 0
+//@   |   && (opts.WithAlpnProtoPrefix == "v1-nodee-fetch-node-creds-"
+//@   |       || (x509Verifies(cs.PeerCertificates[0], verifyOpts.Roots, verifyOpts.DNSName)
+//@   |           && (len(opts.WithExpectedPublicKey) == 0 || bytes(opts.WithExpectedPublicKey) == bytes(cs.PeerCertificates[0].SubjectKeyId))))
+
+// standardTlsConfig: the returned configuration skips crypto/tls's own chain
+// verification, requires a peer certificate and TLS 1.3, and its
+// VerifyConnection is the closure above capturing: the options record of the
+// option list, and verification options whose pool is the pool passed in and
+// whose DNS name is the nonce option (when no custom verification-options
+// function is configured).
+//@ func tls.standardTlsConfig
+//@   nopanic[C07,C14]
+//@   ensures[C07,C02,* failclosed] err != nil ==> ret == nil
+//@   ensures[C07,C02 config] err == nil ==> ret != nil && fresh(ret) && pool != nil && ret.InsecureSkipVerify && ret.MinVersion == 772
+//@   |   && ret.ClientAuth == 2 && ret.RootCAs == pool && ret.ClientCAs == pool && ret.ServerName == opts(opt).WithServerName
+//@   ensures[C07,C02 closure] err == nil ==> closureOf(ret.VerifyConnection, "tls.standardTlsConfig$1") && captured(ret.VerifyConnection, "tls.standardTlsConfig$1", "opts") != nil
+//@   |   && captured(ret.VerifyConnection, "tls.standardTlsConfig$1", "opts").WithAlpnProtoPrefix == opts(opt).WithAlpnProtoPrefix
+//@   |   && bytes(captured(ret.VerifyConnection, "tls.standardTlsConfig$1", "opts").WithExpectedPublicKey) == bytes(opts(opt).WithExpectedPublicKey)
+//@   |   && len(captured(ret.VerifyConnection, "tls.standardTlsConfig$1", "opts").WithExpectedPublicKey) == len(opts(opt).WithExpectedPublicKey)
+//@   ensures[C07,C02 pool] err == nil && opts(opt).WithTlsVerifyOptionsFunc == nil ==>
+//@   |   captured(ret.VerifyConnection, "tls.standardTlsConfig$1", "verifyOpts").Roots == pool && captured(ret.VerifyConnection, "tls.standardTlsConfig$1", "verifyOpts").DNSName == opts(opt).WithNonce
+
+// ---------------------------------------------------------------- client.go (C07)
+// ClientConfigs: every configuration it returns is a standard configuration (the gate above) whose pool is a
+// fresh pool holding only CA certificates of the two stored bundles, whose required DNS name is the base64 of
+// a 32-byte nonce drawn for this call - the same nonce that is inside the signed request carried in the ALPN
+// entries - and whose certificate-preference entry is its own (two configurations never share it).
+//@ func tls.ClientConfigs
+//@   ensures[C07 failclosed] err != nil ==> ret == nil
+//@   loop 0 unroll 2
+//@   loop 1 unroll 2
+//@   call tls.standardTlsConfig assert[C07 gateargs] arg1 == rootPool && rootPool != nil && fresh(rootPool)
+//@   |   && opts(arg2).WithNonce == b64(bytes(nonceBytes)) && len(nonceBytes) == 32 && fresh(nonceBytes)
+//@   |   && opts(arg2).WithAlpnProtoPrefix == opts(opt).WithAlpnProtoPrefix
+//@   |   && opts(arg2).WithTlsVerifyOptionsFunc == opts(opt).WithTlsVerifyOptionsFunc
+//@   call tls.standardTlsConfig assert[C07 poolonlystored] n != nil && len(n.CertificateBundles) == 2 && (forall c Int :: poolHas(rootPool, c) ==>
+//@   |   c == certOf(n.CertificateBundles[0].CaCertificateDer) || c == certOf(n.CertificateBundles[1].CaCertificateDer))
+//@   call proto.Marshal assert[C07 requestfields] dynIs(arg0, "types.GenerateServerCertificatesRequest") ==>
+//@   |   bytes(as(arg0, "types.GenerateServerCertificatesRequest").Nonce) == bytes(nonceBytes)
+//@   |   && bytes(as(arg0, "types.GenerateServerCertificatesRequest").CertificatePublicKeyPkix) == bytes(n.CertificatePublicKeyPkix)
+//@   |   && !as(arg0, "types.GenerateServerCertificatesRequest").SkipVerification
+//@   call tls.BreakIntoNextProtos assert[C07 request] arg0 == "v1-nodee-authenticate-node-" && arg1 == reqStr && reqStr == b64(bytes(reqBytes))
+//@   ensures[C07 ownpreference] err == nil && len(ret) == 2 ==> ret[0] != ret[1] && len(ret[0].NextProtos) > 0 && len(ret[1].NextProtos) > 0
+//@   |   && hasPrefix(ret[0].NextProtos[len(ret[0].NextProtos) - 1], "v1-nodee-certificate-preference-")
+//@   |   && hasPrefix(ret[1].NextProtos[len(ret[1].NextProtos) - 1], "v1-nodee-certificate-preference-")
+//@   |   && ret[0].NextProtos[len(ret[0].NextProtos) - 1] != ret[1].NextProtos[len(ret[1].NextProtos) - 1]
